@@ -122,3 +122,23 @@ package cose
 //@   pure
 //@   requires @registered macregistered(alg)
 //@   ensures err == nil ==> result0 != nil
+
+// ---- PKCS#7 padding of the CBC crypter (C05, C09): the padded text is the input
+// followed by 1..16 bytes each holding the pad size, so that unpad recovers the
+// input for every length (also a block-aligned one) --------------------------------------------
+//@ func cose.pad
+//@   props C05 C09 C10(sweep)
+//@   sweep bounds,panic,make,div
+//@   requires @block blockSize == 16
+//@   requires @len len(b) < 1 << 40
+//@   ensures @aligned len(result) % 16 == 0 && len(result) > len(b) && len(result) <= len(b) + 16
+//@   ensures @last int(result[len(result)-1]) == len(result) - len(b)
+//@   ensures @prefix forall k in 0..len(b): result[k] == b[k]
+
+//@ func cose.unpad
+//@   props C05 C09 C10(sweep)
+//@   sweep bounds,panic,make,nilmem,div
+//@   pure
+//@   ensures @strip err == nil ==> len(b) > 0 && int(b[len(b)-1]) >= 1 && int(b[len(b)-1]) <= blockSize && len(result0) == len(b) - int(b[len(b)-1])
+//@   ensures @prefix err == nil ==> forall k in 0..len(result0): result0[k] == b[k]
+//@   ensures @total len(b) > 0 && int(b[len(b)-1]) >= 1 && int(b[len(b)-1]) <= blockSize && int(b[len(b)-1]) <= len(b) ==> err == nil
